@@ -10,10 +10,18 @@ struct Env {
     env: HashMap<String, String>,
 }
 
-impl From<env::Vars> for Env {
-    fn from(envars: env::Vars) -> Self {
+impl From<env::VarsOs> for Env {
+    fn from(envars: env::VarsOs) -> Self {
         Self {
-            env: envars.collect::<HashMap<String, String>>(),
+            // `env::vars()` panics on a value that is not valid UTF-8: convert lossily instead
+            env: envars
+                .map(|(k, v)| {
+                    (
+                        k.to_string_lossy().into_owned(),
+                        v.to_string_lossy().into_owned(),
+                    )
+                })
+                .collect::<HashMap<String, String>>(),
         }
     }
 }
@@ -36,7 +44,7 @@ pub fn load(envars: Vec<(String, String)>) -> Value {
     envars.into_iter().for_each(|(k, v)| unsafe {
         env::set_var(k, v);
     });
-    Value::from_serialize(Env::from(env::vars()))
+    Value::from_serialize(Env::from(env::vars_os()))
 }
 
 #[cfg(test)]
